@@ -26,7 +26,7 @@ from .values import (
     parse_int,
     parse_float,
 )
-from .errors import JSError, MemoryLimitError, TimeLimitError
+from .errors import JSError, JSTypeError, MemoryLimitError, TimeLimitError
 
 
 class Context:
@@ -171,25 +171,12 @@ class Context:
             return "[object Object]"
 
         def proto_hasOwnProperty(this_val, *args):
-            prop = to_string(args[0]) if args else ""
-            if isinstance(this_val, JSArray):
-                # For arrays, check both properties and array indices
-                try:
-                    idx = int(prop)
-                    if 0 <= idx < len(this_val._elements):
-                        return True
-                except (ValueError, TypeError):
-                    pass
-                return (
-                    this_val.has(prop)
-                    or prop in this_val._getters
-                    or prop in this_val._setters
-                )
+            prop = to_string(args[0]) if args else "undefined"
             if isinstance(this_val, JSObject):
-                return (
-                    this_val.has(prop)
-                    or prop in this_val._getters
-                    or prop in this_val._setters
+                return this_val.has_own(prop)
+            if isinstance(this_val, str):
+                return prop == "length" or (
+                    prop.isdigit() and str(int(prop)) == prop and int(prop) < len(this_val)
                 )
             return False
 
@@ -218,31 +205,45 @@ class Context:
         # Store for other constructors to use
         self._object_prototype = object_prototype
 
+        def own_keys(obj):
+            """Own enumerable string keys of any value."""
+            if isinstance(obj, str):
+                return [str(i) for i in range(len(obj))]
+            if isinstance(obj, JSObject):
+                return obj.keys()
+            return []
+
+        def own_value(obj, key):
+            """obj[key] for an own key, as a script reads it (getters run on obj)."""
+            if isinstance(obj, str):
+                return obj[int(key)]
+            if obj.is_accessor(key):
+                getter = obj._getters.get(key)
+                if getter is None:
+                    return UNDEFINED
+                if isinstance(getter, JSFunction):
+                    return self._call_function(getter, [], obj)
+                return getter()
+            return obj.get_own(key)
+
         def keys_fn(*args):
             obj = args[0] if args else UNDEFINED
-            if not isinstance(obj, JSObject):
-                return JSArray()
             arr = JSArray()
-            arr._elements = list(obj.keys())
+            arr._elements = list(own_keys(obj))
             return arr
 
         def values_fn(*args):
             obj = args[0] if args else UNDEFINED
-            if not isinstance(obj, JSObject):
-                return JSArray()
             arr = JSArray()
-            arr._elements = [obj.get(k) for k in obj.keys()]
+            arr._elements = [own_value(obj, k) for k in own_keys(obj)]
             return arr
 
         def entries_fn(*args):
             obj = args[0] if args else UNDEFINED
-            if not isinstance(obj, JSObject):
-                return JSArray()
             arr = JSArray()
-            arr._elements = []
-            for k in obj.keys():
+            for k in own_keys(obj):
                 entry = JSArray()
-                entry._elements = [k, obj.get(k)]
+                entry._elements = [k, own_value(obj, k)]
                 arr._elements.append(entry)
             return arr
 
@@ -252,11 +253,13 @@ class Context:
             target = args[0]
             if not isinstance(target, JSObject):
                 return target
+            vm = self._nested_vm() if len(args) > 1 else None
             for i in range(1, len(args)):
                 source = args[i]
                 if isinstance(source, JSObject):
                     for k in source.keys():
-                        target.set(k, source.get(k))
+                        # An ordinary assignment: setters on the target run
+                        vm._set_property(target, k, own_value(source, k))
             return target
 
         def get_prototype_of(*args):
@@ -274,6 +277,11 @@ class Context:
             if proto is NULL or proto is None:
                 obj._prototype = None
             elif isinstance(proto, JSObject):
+                ancestor = proto
+                while isinstance(ancestor, JSObject):
+                    if ancestor is obj:
+                        raise JSTypeError("Cyclic __proto__ value")
+                    ancestor = ancestor._prototype
                 obj._prototype = proto
             return obj
 
@@ -298,9 +306,10 @@ class Context:
 
                 # Check for value (only if no getter/setter)
                 if getter is UNDEFINED and setter is UNDEFINED:
-                    value = descriptor.get("value")
-                    if value is not UNDEFINED:
-                        obj.set(prop_name, value)
+                    if descriptor.holder("value") is not None:
+                        obj.define_value(prop_name, descriptor.get("value"))
+                    elif not obj.has_own(prop_name):
+                        obj.define_value(prop_name, UNDEFINED)
 
             return obj
 
@@ -313,7 +322,7 @@ class Context:
                 return obj
 
             for key in props.keys():
-                descriptor = props.get(key)
+                descriptor = own_value(props, key)
                 define_property(obj, key, descriptor)
 
             return obj
@@ -328,6 +337,8 @@ class Context:
                 obj._prototype = None
             elif isinstance(proto, JSObject):
                 obj._prototype = proto
+            else:
+                raise JSTypeError("Object prototype may only be an Object or null")
 
             if properties is not UNDEFINED and isinstance(properties, JSObject):
                 define_properties(obj, properties)
@@ -343,11 +354,7 @@ class Context:
                 return UNDEFINED
             prop_name = to_string(prop)
 
-            if (
-                not obj.has(prop_name)
-                and prop_name not in obj._getters
-                and prop_name not in obj._setters
-            ):
+            if not obj.has_own(prop_name):
                 return UNDEFINED
 
             descriptor = JSObject()
@@ -359,7 +366,7 @@ class Context:
                 descriptor.set("get", getter if getter else UNDEFINED)
                 descriptor.set("set", setter if setter else UNDEFINED)
             else:
-                descriptor.set("value", obj.get(prop_name))
+                descriptor.set("value", obj.get_own(prop_name))
                 descriptor.set("writable", True)
 
             descriptor.set("enumerable", True)
@@ -1214,7 +1221,9 @@ class Context:
             vm.native_depth = self._current_vm.native_depth + 1
         return vm
 
-    def _call_function(self, func: JSFunction, args: list) -> Any:
+    def _call_function(
+        self, func: JSFunction, args: list, this_val: Any = UNDEFINED
+    ) -> Any:
         """Call a JavaScript function with the given arguments.
 
         This is used internally to invoke JSFunction objects from Python code.
@@ -1222,7 +1231,7 @@ class Context:
         vm = self._nested_vm()
         if vm.start_time is None:
             vm.start_time = time.monotonic()
-        return vm._call_callback(func, args, UNDEFINED)
+        return vm._call_callback(func, args, this_val)
 
     def get(self, name: str) -> Any:
         """Get a global variable.
